@@ -19,6 +19,19 @@ RUNDIR = os.path.join(VERIF, ".build", "run")
 OUT = VERIF if os.environ.get("VERIF_REPO", "/repo") == "/repo" else os.path.join(VERIF, ".build", "scratch")
 PROGRESS_SIZE = 32 + 128
 MAX_DEATHS_PER_BATCH = 150
+# runs that end in a time budget (logical step budget, CPU watchdog, stall) are expensive by construction: once a
+# check has seen this many of them the tree is known to violate, exploration stops and the candidates are processed
+MAX_HANGS_PER_CHECK = 10
+HANG_CAUSES = ("hang", "cpu_watchdog", "exit79", "signal24")
+_hangs = {"n": 0}
+
+
+def is_hang_sig(sig):
+    return sig.startswith("death:") and sig.rsplit(":", 1)[-1] in HANG_CAUSES
+
+
+def saturated():
+    return _hangs["n"] >= MAX_HANGS_PER_CHECK
 
 
 def cause_of(rc):
@@ -26,6 +39,8 @@ def cause_of(rc):
         return "asan"
     if rc == 78:
         return "ubsan"
+    if rc == 80:
+        return "cpu_watchdog"
     if rc is None:
         return "hang"
     if rc < 0:
@@ -173,8 +188,11 @@ def run_batch(binary, kind, seed, first, count, nworkers, env=None, chunk=200, e
         n = min(chunk, first + count - i)
         q.put((i, n))
         i += n
-    res = {"stats": {}, "candidates": [], "hashes": {}, "executed": 0, "deaths": 0, "notes": []}
+    res = {"stats": {}, "candidates": [], "hashes": {}, "executed": 0, "deaths": 0, "notes": [], "stopped_early": False}
     lock = threading.Lock()
+    if saturated():
+        res["stopped_early"] = True
+        return res
 
     def cmdline(a, n):
         if kind in ("RUNS", "LIGHT"):  # seeded kinds
@@ -185,23 +203,27 @@ def run_batch(binary, kind, seed, first, count, nworkers, env=None, chunk=200, e
         w = Worker(binary, wid, env, args=args)
         for ic in init_cmds:
             command(w, ic, timeout=60)
+        ctx = []  # ranges (first, count) of runs this worker process has executed since it was (re)started
         try:
             while True:
                 if deadline and time.time() > deadline:
                     return
-                if res["deaths"] >= MAX_DEATHS_PER_BATCH:
+                if res["deaths"] >= MAX_DEATHS_PER_BATCH or saturated():
+                    res["stopped_early"] = True
                     return  # the candidates collected so far are enough; do not grind through a tree that dies on every run
                 try:
                     a, n = q.get_nowait()
                 except queue.Empty:
                     return
-                while n > 0 and res["deaths"] < MAX_DEATHS_PER_BATCH:
+                while n > 0 and res["deaths"] < MAX_DEATHS_PER_BATCH and not saturated():
                     lines, death = command(w, cmdline(a, n), timeout=3600, stall=stall)
                     with lock:
                         for l in lines:
                             if l.startswith("CAND "):
                                 kv = dict(x.split("=", 1) for x in l[5:].split(" ", 1))
-                                res["candidates"].append({"run": int(kv["run"]), "sig": kv["sig"]})
+                                # "ctx": what the same process had executed before this run (engines that execute
+                                # many runs per process use it when a candidate does not reproduce on its own)
+                                res["candidates"].append({"run": int(kv["run"]), "sig": kv["sig"], "ctx": list(ctx) + [(a, int(kv["run"]) - a)]})
                             elif l.startswith("HASH "):
                                 kv = dict(x.split("=", 1) for x in l[5:].split())
                                 res["hashes"][int(kv["run"])] = kv["hash"]
@@ -213,6 +235,7 @@ def run_batch(binary, kind, seed, first, count, nworkers, env=None, chunk=200, e
                     if death is None:
                         with lock:
                             res["executed"] += n
+                        ctx.append((a, n))
                         break
                     # the worker died (or hung) inside run death["run"]
                     r = death["run"]
@@ -220,11 +243,14 @@ def run_batch(binary, kind, seed, first, count, nworkers, env=None, chunk=200, e
                         r = a
                     with lock:
                         res["deaths"] += 1
+                        if cause_of(death["rc"]) in HANG_CAUSES:
+                            _hangs["n"] += 1
                         res["candidates"].append({"run": r, "sig": "death:%s:%s" % (death["label"] or "?", cause_of(death["rc"])),
                                                   "stderr": death["stderr"][-3000:]})
                         res["executed"] += r - a + 1
                     w.kill()
                     w.start()
+                    del ctx[:]
                     for ic in init_cmds:
                         command(w, ic, timeout=60)
                     n = a + n - (r + 1)
@@ -352,7 +378,8 @@ def write_evidence(prop, ev):
 
 
 def process_candidates(prop, engine, binary, cands, get_plan, env=None, header=None, max_report=12, min_budget=300,
-                       exec_timeout=300, simplify=None, args=None, log=print, pin_first=False):
+                       exec_timeout=300, simplify=None, args=None, log=print, pin_first=False, context_plan=None,
+                       fresh_process_is_truth=False):
     """Confirm, minimise and write replay files for candidate violations.
     Returns (violations[list of dict(sig, path)], known[list of dict], harness_errors[list of str])."""
     known = load_known_findings()
@@ -370,6 +397,31 @@ def process_candidates(prop, engine, binary, cands, get_plan, env=None, header=N
         hdr = header(c) if callable(header) else header
         r1 = exec_plan(binary, plan, env, timeout=exec_timeout, header=hdr, args=args)
         r2 = exec_plan(binary, plan, env, timeout=exec_timeout, header=hdr, args=args)
+        needs_context = False
+        if context_plan and r1["sig"] == r2["sig"] and r1["hash"] == r2["hash"] and r1["sig"] != sig and c.get("ctx"):
+            # deterministic on its own, but different from what the worker saw: the run depends on what the same
+            # process executed before it.  Re-execute it behind the last k runs of its worker, k growing.
+            nprior = sum(n for _, n in c["ctx"])
+            for k in (1, 4, 16, 64, 256, 1024, 4096, nprior):
+                k = min(k, nprior)
+                if k <= 0:
+                    break
+                cplan = context_plan(c, k)
+                x1 = exec_plan(binary, cplan, env, timeout=exec_timeout, header=hdr, args=args)
+                if x1["sig"] != sig:
+                    if k == nprior:
+                        break
+                    continue
+                x2 = exec_plan(binary, cplan, env, timeout=exec_timeout, header=hdr, args=args)
+                if x2["sig"] == sig and x1["hash"] == x2["hash"]:
+                    plan, r1, r2, needs_context = cplan, x1, x2, True
+                    log("candidate %s (run %s) reproduces only behind %d earlier run(s) of the same process" % (sig, c["run"], k))
+                break
+        if fresh_process_is_truth and not needs_context and r1["sig"] == r2["sig"] and r1["hash"] == r2["hash"] and r1["sig"] == "OK":
+            # the property speaks about one process per run: what a long-lived worker saw after thousands of earlier
+            # runs, but a fresh process does not show (twice, identically), is an artefact of process reuse
+            log("NOTE candidate %s (run %s) is not shown by a fresh process: artefact of process reuse, dropped" % (sig, c["run"]))
+            continue
         if r1["sig"] != sig or r2["sig"] != sig or r1["hash"] != r2["hash"]:
             harness_errors.append("candidate %s (run %s) did not reproduce in a fresh process: got %s/%s hashes %s/%s; stderr of the original: %s" %
                                   (sig, c["run"], r1["sig"], r2["sig"], r1["hash"], r2["hash"], (c.get("stderr") or "")[-600:].replace("\n", " | ")))
@@ -382,12 +434,16 @@ def process_candidates(prop, engine, binary, cands, get_plan, env=None, header=N
         def test(ops):
             return exec_plan(binary, ops, env, timeout=exec_timeout, header=hdr, args=args)["sig"] == sig
 
+        if is_hang_sig(sig):
+            min_budget_here = min(min_budget, 24)  # every re-run of a hanging plan costs a whole time budget
+        else:
+            min_budget_here = min_budget
         if pin_first and len(plan) > 1:
             # the first line is the plan's own header (e.g. the scheduler seed): never dropped
-            rest, ncalls = ddmin(plan[1:], lambda ops: test([plan[0]] + ops), budget=min_budget)
+            rest, ncalls = ddmin(plan[1:], lambda ops: test([plan[0]] + ops), budget=min_budget_here)
             small = [plan[0]] + rest
         else:
-            small, ncalls = ddmin(plan, test, budget=min_budget)
+            small, ncalls = ddmin(plan, test, budget=min_budget_here)
         if simplify:
             small = simplify(small, test)
         final = exec_plan(binary, small, env, timeout=exec_timeout, header=hdr, args=args)
@@ -400,6 +456,7 @@ def process_candidates(prop, engine, binary, cands, get_plan, env=None, header=N
         path = os.path.join(rdir, "%s-run%s.json" % (safe, c["run"]))
         rep = {"property": prop, "engine": engine, "signature": sig, "run_index": c["run"], "seed": c.get("seed"),
                "kind": c.get("kind"), "header": hdr or [], "ops": small, "original_length": len(plan), "minimisation_reruns": ncalls,
+               "needs_earlier_histories_in_the_same_process": needs_context,
                "detail": final.get("detail", []), "trace": final.get("trace", [])[-40:], "hash": final.get("hash"),
                "stderr": (final.get("stderr") or c.get("stderr") or "")[-3000:], "occurrences_in_batch": len(by_sig[sig])}
         with open(path, "w") as f:
